@@ -5,6 +5,7 @@ import RichchkModel.Lemmas.AllocPerm
 import RichchkModel.Model.Editors
 import RichchkModel.Lemmas.StrGrow
 import RichchkModel.Lemmas.OrderFree
+import RichchkModel.Props.C07
 namespace Richchk.Props.C14
 open Richchk
 
@@ -68,5 +69,22 @@ theorem c14_unit_property_rebuild_order_free (cfg : RichCfg) (secs : List RSecti
     (o1 o2 : Option (List Nat)) : rebuildUprp cfg secs o1 = rebuildUprp cfg secs o2 := by
   rw [rebuildUprp_order_free cfg secs table hsec hidx hfound o1,
     rebuildUprp_order_free cfg secs table hsec hidx hfound o2]
+
+/-- **the name a stored switch carries does not depend on the iteration order of a set**: under any two
+orders in which the save succeeds, slot `i` of the rebuilt switch table holds the same named entry (this is
+what repository fixes f7874f6 / d43c2ba established; before them the name was kept or erased depending on
+the hash seed) -/
+theorem c14_named_switch_order_free {cfg : RichCfg} {secs : List RSection} (o1 o2 : Option (List Nat))
+    {t1 t2 : List RSwitch} {i1 i2 : List (RSwitch × Nat)}
+    (h1 : rebuildSwnm cfg secs o1 = .ok (t1, i1)) (h2 : rebuildSwnm cfg secs o2 = .ok (t2, i2))
+    (ss : List RSwitch) (hs : secs.filter (isSectionNamed nSWNM) = [.swnm ss])
+    (x : RSwitch) (hx : x ∈ ss) (hxn : hasCustomName x = true) (i : Nat) (hxi : x.idx = some i)
+    (hi : i < cfg.switchSlots)
+    (huniq : ∀ u ∈ ss, u.idx = some i → hasCustomName u = true → u = x)
+    (hused : ∀ u ∈ (secs.filter (fun s => !isSectionNamed nSWNM s)).flatMap (sectionSwitches cfg),
+      u.idx = some i → hasCustomName u = true → RSwitch.same x u = true) :
+    t1[i]? = t2[i]? := by
+  rw [Props.C07.c07_named_switch_keeps_name h1 ss hs x hx hxn i hxi hi huniq hused,
+    Props.C07.c07_named_switch_keeps_name h2 ss hs x hx hxn i hxi hi huniq hused]
 
 end Richchk.Props.C14
